@@ -202,7 +202,11 @@ class Built:
         from reservoirpy.model import Model
         self.descs = [dict(d) for d in descs]
         self.user_edges = list(edges)
-        self.names = [fresh("n") for _ in descs]
+        # names of one case are prefix-related in groups of three ("…a", "…a0", "…a00", "…b", …): the order in
+        # which a node receives its predecessors is defined through their names, and name-keyed tables must not
+        # confuse a name with its extensions
+        base = fresh("n")
+        self.names = [base + "abcdefghijklmnop"[i // 3] + "0" * (i % 3) for i in range(len(descs))]
         self.nodes = [make_node(d, nm) for d, nm in zip(self.descs, self.names)]
         self.outside = []          # (desc, node) of feedback senders outside the graph
         self.fb_links = dict(fb_links or {})     # receiver index -> sender index (>= len(descs): outside)
